@@ -2,11 +2,12 @@
 from harness import hcommon, sysprops
 
 PROP = "C11"
+EXTRA_PROPS = ("C11b",)     # history independence: idle handlers that agree on cfg, environment, queue (and counter) behave identically
 
 
 def run(tier, seed):
     hc = hcommon.HandlerCheck(PROP, tier, seed)
-    hc.gate()
+    hc.gate(EXTRA_PROPS)
     for case in hcommon.share(sysprops.c11_cases(tier, hc.rng)):
         case.run()
         for kind, ops, obs in case.sides:
